@@ -292,7 +292,7 @@ func translateOutcome(q *cypher.RegularQuery, mapper pgsql.KindMapper, params ma
 var (
 	genNodeKinds = []string{"NodeKind1", "NodeKind2", "User", "Group", "Computer"}
 	genEdgeKinds = []string{"EdgeKind1", "EdgeKind2", "MemberOf", "AdminTo"}
-	genProps     = []string{"name", "value", "objectid", "enabled", "arr", "count", "system_tags"}
+	xlGenProps     = []string{"name", "value", "objectid", "enabled", "arr", "count", "system_tags"}
 )
 
 type genVar struct {
@@ -363,7 +363,7 @@ func (g *queryGen) value() string {
 		return Pick(g.rng, []string{"true", "false", "null", "1.5"})
 	case 4:
 		if v, ok := g.pick("nr"); ok {
-			return v.name + "." + Pick(g.rng, genProps)
+			return v.name + "." + Pick(g.rng, xlGenProps)
 		}
 		return "1"
 	default:
@@ -379,7 +379,7 @@ func (g *queryGen) atom() string {
 		}
 		return "1 = 1"
 	}
-	prop := v.name + "." + Pick(g.rng, genProps)
+	prop := v.name + "." + Pick(g.rng, xlGenProps)
 	switch g.rng.Intn(16) {
 	case 0, 1, 2:
 		return prop + " " + Pick(g.rng, []string{"=", "<>", ">", "<", ">=", "<="}) + " " + g.value()
@@ -415,7 +415,7 @@ func (g *queryGen) atom() string {
 		return "size(" + prop + ") > " + fmt.Sprint(g.rng.Intn(4))
 	case 13:
 		if w, ok := g.pick("nr"); ok && w.name != v.name {
-			return prop + " = " + w.name + "." + Pick(g.rng, genProps)
+			return prop + " = " + w.name + "." + Pick(g.rng, xlGenProps)
 		}
 		return prop + " = " + prop
 	case 14:
@@ -461,7 +461,7 @@ func (g *queryGen) nodePat(reuse bool) string {
 		}
 	}
 	if g.rng.Chance(1, 4) {
-		b.WriteString(" {" + Pick(g.rng, genProps) + ": " + Pick(g.rng, []string{"'a'", "1", g.param()}) + "}")
+		b.WriteString(" {" + Pick(g.rng, xlGenProps) + ": " + Pick(g.rng, []string{"'a'", "1", g.param()}) + "}")
 	}
 	b.WriteString(")")
 	return b.String()
@@ -542,7 +542,7 @@ func (g *queryGen) projItems(final bool) (string, []genVar) {
 		typ := v.typ
 		switch {
 		case (v.typ == 'n' || v.typ == 'r') && g.rng.Chance(1, 3):
-			expr = v.name + "." + Pick(g.rng, genProps)
+			expr = v.name + "." + Pick(g.rng, xlGenProps)
 			typ = 's'
 		case g.rng.Chance(1, 6):
 			expr = Pick(g.rng, []string{"count", "collect"}) + "(" + v.name + ")"
@@ -597,7 +597,7 @@ func (g *queryGen) tail(out []genVar) string {
 		o := Pick(g.rng, out)
 		e := o.name
 		if (o.typ == 'n' || o.typ == 'r') && g.rng.Chance(2, 3) {
-			e += "." + Pick(g.rng, genProps)
+			e += "." + Pick(g.rng, xlGenProps)
 		}
 		b.WriteString(" ORDER BY " + e + Pick(g.rng, []string{"", " DESC", " ASC"}))
 	}
@@ -652,11 +652,11 @@ func genCypherQuery(rng *Rng) string {
 			g.mutates = true
 			switch rng.Intn(4) {
 			case 0:
-				b.WriteString("SET " + v.name + "." + Pick(rng, genProps) + " = " + g.value() + " ")
+				b.WriteString("SET " + v.name + "." + Pick(rng, xlGenProps) + " = " + g.value() + " ")
 			case 1:
 				b.WriteString(Pick(rng, []string{"DELETE ", "DETACH DELETE "}) + v.name + " ")
 			case 2:
-				b.WriteString("REMOVE " + v.name + "." + Pick(rng, genProps) + " ")
+				b.WriteString("REMOVE " + v.name + "." + Pick(rng, xlGenProps) + " ")
 			default:
 				if v.typ == 'n' {
 					b.WriteString("SET " + v.name + ":" + Pick(rng, genNodeKinds) + " ")
